@@ -153,6 +153,10 @@ func c13LoadVariant(sc *Scenario, data []byte, script []simio.ReadStep, what str
 				lr.Panic = "" // reported below as its own kind
 				overran = true
 			}
+		case 10, 11, 12, 13: // readers with optional methods that describe a file longer than what the reads deliver
+			rk := map[int]int{10: rkStatLarger, 11: rkSizeLarger, 12: rkStatPipe, 13: rkLenTrue}[variant]
+			rd := readerOfKind(&simio.SimReader{Data: data, Script: script}, rk, sc.Int("fulllen", len(data)+1+len(data)%977))
+			lr.Prog, lr.Err = bcl.LoadProg(rd, "n", bcl.OptOutput(lr.Out), bcl.OptLogger(lr.Log))
 		case 8: // no writers at all
 			lr.Prog, lr.Err = bcl.LoadProg(&simio.SimReader{Data: data, Script: script}, "n", bcl.OptOutput(nil), bcl.OptLogger(nil))
 		default:
@@ -215,7 +219,8 @@ func (e *endlessReader) Read(p []byte) (int, error) {
 }
 
 var c13VariantName = []string{"", "Load into a used Prog", "second Load into the same Prog", "reader ends with io.ErrUnexpectedEOF", "reader ends with an I/O error", "file-like reader (Read, Close, Name)",
-	"caller-owned *bufio.Reader: retried, then reset and used again after an unrelated load", "Load on a zero-value Prog", "LoadProg with nil output and log writers", "stream that does not end behind the bytes"}
+	"caller-owned *bufio.Reader: retried, then reset and used again after an unrelated load", "Load on a zero-value Prog", "LoadProg with nil output and log writers", "stream that does not end behind the bytes",
+	"file whose Stat reports the length it had before the write was interrupted", "reader whose Size reports more than it delivers", "pipe (Stat: size 0, not a regular file)", "reader with a truthful Len"}
 
 var c13Hung = map[int]bool{}
 
@@ -363,7 +368,12 @@ func (c13) Run(t *testing.T, sc *Scenario) *Outcome {
 			// the options LoadProg takes are part of the call: the listing must not be attempted on a failed load
 			c13LoadOpt(sc, torn, script, what+" (seeded partition, zero reads, data+EOF)", o, "prefix", k%2 == 1)
 			if k%3 == 0 || k > len(full)-40 {
-				c13LoadVariant(sc, torn, nil, what, o, "prefix", 1+(k/3)%8)
+				v := 1 + (k/3)%12
+				if v >= 9 {
+					v++ // 9 (the stream that does not end) is tried on headers only
+					sc.SetInt("fulllen", len(full))
+				}
+				c13LoadVariant(sc, torn, nil, what, o, "prefix", v)
 			}
 			if len(o.Violations) > 0 {
 				break
